@@ -76,6 +76,29 @@ pub fn load_known() -> Known {
     Known { findings }
 }
 
+/// long sample histories (constant streams of thousands of adds) are cut to their first steps
+fn shorten_history(x: &Value) -> Value {
+    let mut x = x.clone();
+    if let Some(h) = x.get_mut("history").and_then(|h| h.as_array_mut()) {
+        if h.len() > 24 {
+            let n = h.len();
+            h.truncate(20);
+            h.push(json!({"elided_steps": n - 20}));
+        }
+    }
+    x
+}
+/// per-level frontier sizes of very deep explorations: first 20 levels, then every 100th
+fn shorten_list(v: &[u64]) -> Value {
+    if v.len() <= 48 {
+        return json!(v);
+    }
+    let mut out: Vec<Value> = v[..20].iter().map(|x| json!(x)).collect();
+    out.push(json!(format!("... {} levels in all; every 100th from here:", v.len())));
+    out.extend(v.iter().enumerate().skip(20).filter(|(i, _)| i % 100 == 0).map(|(_, x)| json!(x)));
+    json!(out)
+}
+
 fn hash_hex(s: &str) -> String {
     // FNV-1a, only for file names
     let mut h: u64 = 0xcbf29ce484222325;
@@ -215,7 +238,7 @@ impl PropReport {
         for s in &self.specs {
             for x in s.samples.iter().take(2) {
                 if samples.len() < 12 {
-                    samples.push(x.clone());
+                    samples.push(shorten_history(x));
                 }
             }
         }
@@ -236,7 +259,7 @@ impl PropReport {
                     "depth_requested": s.depth_requested,
                     "depth_completed": s.depth_completed,
                     "closed_fixpoint": s.closed,
-                    "frontier_sizes": s.frontier_sizes,
+                    "frontier_sizes": shorten_list(&s.frontier_sizes),
                     "cap_hit": s.capped,
                     "stateright_unique_states": s.stateright_states,
                     "wall_s": (s.wall_s * 1000.0).round() / 1000.0,
